@@ -5,6 +5,8 @@ ID = "C10"
 STAGES = [
     Stage("cycles", "p10_cycles", "plain", {"quick": 150, "thorough": 10000}, timeout_per_case=180),
     Stage("cycles-asan", "p10_cycles", "asan", {"quick": 24, "thorough": 500}, offset=1000000, timeout_per_case=400),
+    # a one-thread team although the solver asks for more (thread limit, or a solver driven from inside a parallel region)
+    Stage("cycles-thread-limit", "p10_cycles", "plain", {"quick": 60, "thorough": 1500}, offset=2000000, timeout_per_case=180, env={"OMP_THREAD_LIMIT": "1"}, args={"threads": "multi"}),
 ]
 THRESHOLDS = {
     "cycle_vs_reference_recursion": 1e-12,      # ||u_lib - u_ref||_inf / max(||u_ref||_inf, 1); observed: bit-exact (0)
